@@ -15,13 +15,16 @@ MANIFEST = {
     'text': 'Sample.__init__ (loop invariant over parameter_names), samples_array / dim / n_samples / discrepancies, sample_means, '
             'sample_means_and_95CIs, sample_quantiles, BolfiSample.__init__ (slice / reshape / transpose index arithmetic), '
             'gelman_rubin_statistic (= the textbook split R-hat built from definitional finite sums over the input, odd lengths included), '
-            'eff_sample_size for a single chain (= the formula its docstring names, between-chain variance 0; loop invariant over the lags; FFT through one assumed contract), '
+            'eff_sample_size for a single chain (= the formula its docstring names, between-chain variance 0; loop invariant over the lags; FFT through one assumed contract) '
+            'and for 2 and 3 chains of symbolic length and values (= the multi-chain formula: B = n var(chain means), W = mean chain variance, var+ = ((n-1) W + B)/n, '
+            'rho_t from the mean over the chains of the lag-t autocovariances; same loop invariant, same single assumed FFT contract applied per row; 4 chains in the thorough tier), '
             'sample_object_to_dict and numpy_to_python_type (which keys are copied / converted, one nesting level) are verified on the real source '
             'for all numbers of parameters, samples, chains and warm-up lengths; the affine / chain-order invariance of R-hat is proved from the '
-            'moment lemmas (ghost lemma functions) and, on the real body, by computer algebra at small concrete shapes.',
+            'moment lemmas (ghost lemma functions) and, on the real body, by computer algebra at small concrete shapes; the affine / chain-order invariance of ESS is proved '
+            'at the level of the specification for every number of chains and every length (ghost lemmas over the definitional sums: every rho_t, the exit lag and ESS are unchanged).',
     'note': 'Trusted: pyvc engine and numpy spec table (sum = finite sum, var = mean squared deviation / (n - ddof), reshape row-major), '
-            'weighted_sample_quantile through its C13 contract. Not decided: ESS = textbook formula for two or more chains (bounded against an independent O(n^2) reference), byte fidelity of '
-            'pickle / JSON / CSV (both bounded only: round trips of result objects with distinguishable entries, ESS / R-hat invariance natively). '
+            'weighted_sample_quantile through its C13 contract. Not decided: ESS = textbook formula for five or more chains (2-4 chains also bounded against an independent O(n^2) reference), ESS invariance on the real '
+            'body directly (bounded natively; proved over the definitional sums), byte fidelity of pickle / JSON / CSV (bounded only: round trips of result objects with distinguishable entries). '
             'Univariate parameter columns (1-D outputs); floats are reals.',
     'technique': 'deductive: loop-invariant VCs from the real AST (pyvc), ghost lemma functions, z3/cvc5; CAS (sympy) on the real body at concrete shapes; '
                  'bounded: save/load round trips in a temp dir, diagnostics vs independently written formulas',
@@ -1350,6 +1353,8 @@ class EssMultiChain(EssOneChain):
         self.M = M
         self.shape = '2d'
         self.label = '%d-chains' % M
+        if M >= 4:
+            self.tiers = ('thorough',)          # the quick tier runs M = 2 and M = 3
 
     def setup(self, vc):
         M = self.M
@@ -2275,7 +2280,7 @@ class RhatCas(CasContract):
 
 CONTRACTS = [SampleInit('plain'), SampleInit('weighted'), SamplesArray(), NSamples(), Dim(), Discrepancies(True), Discrepancies(False),
              SampleMeans(True), SampleMeans(False), SampleCIs(True), SampleCIs(False), SampleQuantiles(True), SampleQuantiles(False), SumExt(),
-             BolfiInit(), BolfireInit(), GelmanRubin(), GelmanRubin('1/100000', 'finitised-at-scale-1e-5'), RhatCas(), EssOneChain('1d'), EssOneChain('2d'), EssMultiChain(2), EssMultiChain(3), MonotoneCum(), LemmaAffineSum(), LemmaAffineSS(), LemmaRhatAffine(), LemmaRhatPermutation(),
+             BolfiInit(), BolfireInit(), GelmanRubin(), GelmanRubin('1/100000', 'finitised-at-scale-1e-5'), RhatCas(), EssOneChain('1d'), EssOneChain('2d'), EssMultiChain(2), EssMultiChain(3), EssMultiChain(4), MonotoneCum(), LemmaAffineSum(), LemmaAffineSS(), LemmaRhatAffine(), LemmaRhatPermutation(),
              LemmaAffineLag(), LemmaEssAffine(), LemmaEssPermutation(), LemmaEssSameRho(), LemmaEssExitUnique(),
              NumpyToPython(), SampleObjectToDict('given'), SampleObjectToDict('default')]
 
@@ -2288,8 +2293,8 @@ TRUSTED_BASE = ['pyvc engine: proxies, loop cutting, numpy spec table (np.sum / 
                 'type names of numpy objects: for a numpy type the class name contains "array" exactly for arrays, else "int" exactly for integer scalars, else "float" exactly for '
                 'floating scalars; .tolist() / int() / float() of those return plain python objects (sanity-tested on ndarray, int8..64, uint8..64, float16..64, bool_, str_)',
                 'numpy.fft autocovariance idiom irfft(|rfft(d, P)|^2)[c, t] = sum_{i<n-t} d[c, i] d[c, i+t] for t < n when P is even and >= 2n - 1 (Wiener-Khinchin with zero padding; '
-                'contracts/c16.py::_FFT; sanity-tested against direct summation) and 2 ** ceil(1 + log2 n) even and in [2n, 4n) - used only by EssOneChain',
-                'L2a permutation invariance of a finite sum (Mathlib Equiv.sum_comp; lemmas/L2.lean, as in C13) - used only by LemmaRhatPermutation',
+                'contracts/c16.py::_FFT; sanity-tested against direct summation, one and several rows) and 2 ** ceil(1 + log2 n) even and in [2n, 4n) - used only by EssOneChain / EssMultiChain (per row)',
+                'L2a permutation invariance of a finite sum (Mathlib Equiv.sum_comp; lemmas/L2.lean, as in C13) - used only by LemmaRhatPermutation and LemmaEssPermutation',
                 'sympy (CAS tier): expand / simplify / cancel reduce a zero rational function to 0; numpy object arrays apply +, -, *, / elementwise',
                 'universal generalisation and quantifier instantiation in the R-hat proof script (contracts/c16.py::forall_intro, Univ.inst, fcut): fresh constant, syntactic membership checks']
 ASSUMPTIONS = ['A-REAL: floats are reals; A-INT: integers are mathematical; no NaN / inf among samples, weights and chains',
@@ -2300,13 +2305,20 @@ ASSUMPTIONS = ['A-REAL: floats are reals; A-INT: integers are mathematical; no N
                'BolfiSample: 0 <= warmup <= N, at least one chain and one parameter, len(parameter_names) = chains.shape[2]',
                'gelman_rubin_statistic: 2-D input with N >= 4 (two draws per half chain) and positive within-sequence variance (else 0/0)',
                'eff_sample_size[1-chain]: N >= 2 and a non-constant chain (W > 0); the loop exit lag T is characterised as the first lag with rho_T < 0 or n',
+               'eff_sample_size[2-, 3-, 4-chains]: a 2-D input with exactly that many rows, N >= 2 and positive pooled variance var+ > 0 (the draws are not all one value; else 0/0); same exit-lag clause',
+               'ESS invariance lemmas (LemmaEssAffine / LemmaEssPermutation / LemmaEssSameRho): a != 0, var+ > 0; hypotheses of the lemma statements, not assumptions about the code: the per-chain '
+               'moments of a x + b are a mu_c + b, a^2 s2_c, a^2 acov_c(t) (each proved as its own lemma: LemmaAffineSum / LemmaAffineSS / LemmaAffineLag) and those of the reordered chains are '
+               'the moments of chain pi(c); the step from "rho_t equal at a generic lag" to "at every lag" is universal generalisation done on paper (the lemma is stated for an arbitrary t)',
                'numpy_to_python_type: distinct top-level keys hold distinct nested dict objects; sample_object_to_dict: no meta key equals the name of a copied attribute',
                'A-LOG: logging / print calls have no effect']
-NOT_PROVED = ['"the effective-sample-size and split R-hat diagnostics ... equal their textbook formulas" - the ESS half for TWO OR MORE chains: not under contract (bounded: 2-4 chains against an '
-              'independent O(n^2) implementation of the formula).  For a SINGLE chain (1-d or (1, N)) it is proved (EssOneChain) relative to ONE assumed library contract: the FFT autocovariance '
-              'idiom equals the sum of lagged products (numpy.fft has no first-order specification of its own); the R-hat half is proved',
-              '"the effective-sample-size and split R-hat diagnostics are invariant under affine rescaling of the chains and reordering of chains" - the ESS half: bounded only '
-              '(x -> -3x+7, scales 1e-6 .. 1e6, every chain order, C <= 4, N in 4..9)',
+NOT_PROVED = ['"the effective-sample-size and split R-hat diagnostics ... equal their textbook formulas" - the ESS half for FIVE OR MORE chains (and for a symbolic number of chains): not under '
+              'contract.  For a SINGLE chain (1-d or (1, N); EssOneChain) and for 2 and 3 chains (quick tier; 4 chains in the thorough tier; EssMultiChain, one contract instance per number of '
+              'chains, chain length and values symbolic) it is proved relative to ONE assumed library contract: the FFT autocovariance idiom equals the sum of lagged products, row by row '
+              '(numpy.fft has no first-order specification of its own); 2-4 chains are also bounded against an independent O(n^2) implementation of the formula; the R-hat half is proved',
+              '"the effective-sample-size and split R-hat diagnostics are invariant under affine rescaling of the chains and reordering of chains" - the ESS half ON THE REAL BODY DIRECTLY: bounded only '
+              '(x -> -3x+7, scales 1e-6 .. 1e6, every chain order, C <= 4, N in 4..9; the FFT has no computer-algebra run).  At the level of the specification it is proved for every number of '
+              'chains and every length (LemmaAffineLag, LemmaEssAffine, LemmaEssPermutation: every rho_t unchanged; LemmaEssSameRho, LemmaEssExitUnique: same exit lag, same ESS, the exit lag is unique), '
+              'and EssOneChain / EssMultiChain tie the code to that specification for 1-4 chains only',
               '"Saving a sample to pickle, JSON or CSV and reading it back yields the same samples": byte fidelity of pickle / json float repr / csv text is library behaviour - bounded only '
               '(round trips in a temp dir); proved: which keys sample_object_to_dict copies and which values numpy_to_python_type converts (one nesting level)',
               'Sample.save itself (file handling, json.dumps, csv.writer, the populations letters) is not under contract; its JSON branch is covered through its two helpers and the bounded round trips',
@@ -2359,6 +2371,12 @@ def sanity():
         ac = np.fft.irfft(np.abs(np.fft.rfft(d, P)) ** 2)[:, :7].real
         ok = ok and all(abs(ac[0, t] - sum(d[0, i] * d[0, i + t] for i in range(7 - t))) < 1e-12 for t in range(7))
     out.append(('irfft(|rfft(d, P)|^2)[t] = sum of lagged products for even P >= 2n - 1', bool(ok)))
+    d3 = np.array([[0.3, -1.2, 0.7, 2.0, -0.4], [1.0, 0.5, -2.5, 0.25, 0.75], [-0.1, 0.2, 0.4, -0.6, 0.1]])
+    ok = True
+    for P in (10, 16):
+        ac = np.fft.irfft(np.abs(np.fft.rfft(d3, P)) ** 2)[:, :5].real
+        ok = ok and ac.shape == (3, 5) and all(abs(ac[c, t] - sum(d3[c, i] * d3[c, i + t] for i in range(5 - t))) < 1e-12 for c in range(3) for t in range(5))
+    out.append(('the FFT autocovariance idiom works row by row on a (chains, n) array', bool(ok)))
     out.append(('2 ** ceil(1 + log2 n) is even and lies in [2n, 4n)', all(2 * n <= int(2 ** np.ceil(1 + np.log2(n))) < 4 * n and int(2 ** np.ceil(1 + np.log2(n))) % 2 == 0 for n in range(1, 3000))))
     out.append(('json round trip of python floats is exact', json.loads(json.dumps([0.1, 1 / 3, 2.5e-300])) == [0.1, 1 / 3, 2.5e-300]))
     return out
@@ -2398,6 +2416,14 @@ def replay_refuted(cname, rf):
                 f = '%s: %s' % (type(e).__name__, e)
             if f:
                 return dict(found=True, input=inp, observed=f)
+    if fam == 'ess' and wit.get('fn') == 'ess' and wit.get('values'):
+        b._preload()                # the fixed finitised input of the refuted ESS contract first (its own number of chains)
+        try:
+            f = b.check_ess(dict(wit))
+        except Exception as e:
+            f = '%s: %s' % (type(e).__name__, e)
+        if f:
+            return dict(found=True, input=dict(wit), observed=f)
     if fam not in _replay_cache:
         res = b.run('thorough', 0, stop_first=True, which=(fam,))
         fails = [f for r in res for f in r['failures']]
